@@ -259,17 +259,20 @@ type call struct {
 	list []string // shared between goroutines on purpose
 }
 
+// richErr: in C13 the text of a returned error belongs to the result that must not depend on history or schedule
+var richErr bool
+
 func (c *call) run() string {
 	switch c.fn {
 	case 0:
 		r := implSat(c.expr, c.list)
-		if r.err != nil && r.panicv == nil {
+		if richErr && r.err != nil && r.panicv == nil {
 			return "err: " + r.err.Error() // the returned error is part of the result
 		}
 		return r.String()
 	case 1:
 		r := implExt(c.expr)
-		if r.err != nil && r.panicv == nil {
+		if richErr && r.err != nil && r.panicv == nil {
 			return "err: " + r.err.Error()
 		}
 		if r.err != nil || r.panicv != nil {
@@ -355,6 +358,7 @@ func genWorkload(n int) []*call {
 
 func init() {
 	props["C13"] = func() {
+		richErr = true
 		res.Rule = "a workload of random Satisfies / ExtractLicenses / ValidateLicenses calls (valid and invalid arguments) is run (a) sequentially, (b) in two other shuffled orders and interleaved with unrelated calls, (c) from 32 (thorough 64) goroutines sharing the argument slices, each in its own order, under the Go race detector; every result (including the ORDER of ExtractLicenses' output) must equal the sequential one; argument slices are snapshotted before and compared after; os.Stdout / os.Stderr are redirected to pipes that must stay empty. Non-trivial & distinct = distinct calls of the workload"
 		n := scale(1500, 20000)
 		w := genWorkload(n)
@@ -619,6 +623,9 @@ func runChild(exe string, w []*call, perm []int) ([]string, error) {
 	}
 	in, _ := json.Marshal(calls)
 	cmd := exec.Command(exe, "-exec")
+	if richErr {
+		cmd = exec.Command(exe, "-exec", "-errtext")
+	}
 	cmd.Stdin = bytes.NewReader(in)
 	var out bytes.Buffer
 	cmd.Stdout = &out
@@ -658,6 +665,9 @@ func runChildPar(exe string, w []*call, perm []int, workers int) ([][]string, st
 	}
 	in, _ := json.Marshal(calls)
 	cmd := exec.Command(exe, "-exec-par", strconv.Itoa(workers))
+	if richErr {
+		cmd = exec.Command(exe, "-exec-par", strconv.Itoa(workers), "-errtext")
+	}
 	cmd.Stdin = bytes.NewReader(in)
 	var out, errb bytes.Buffer
 	cmd.Stdout = &out
